@@ -14,6 +14,7 @@ import ALV.Lemmas.C13Res
 import ALV.Lemmas.C13Gamma
 import ALV.Lemmas.C13Comb
 import ALV.Lemmas.C13Contract
+import ALV.Lemmas.C13Hist
 import Mathlib.Analysis.SpecialFunctions.Trigonometric.Inverse
 import Mathlib.Analysis.SpecialFunctions.Trigonometric.Bounds
 import ALV.Common.Audit
@@ -836,6 +837,94 @@ theorem gammatone_meets_contract (f bw : ℝ) (h0 : 0 < f) (h1 : f < Real.pi) (h
   · obtain ⟨_, h⟩ := gammatone_klapuri_sections f bw h0 h1 hbw
     exact meets_section_stable s f bw (h s hs).1 (h s hs).2
 
+/-! ### 11. histories: several designs fed the SAME parameter objects
+
+`ALV/Model/C13Hist.lean` runs a history (build / take-one-instant / set-a-control steps over a heap
+of parameter objects: shared iterators, re-iterable or tee'd objects, controls) as a state machine;
+`ALV/Spec/C13Hist.lean` says what each step must show from the steps before it, without state.
+The constant designs themselves are pure functions of their arguments, so "a design is not
+influenced by earlier calls with equal or different arguments" holds for the model by construction
+(it is what the tie checks on the implementation); the theorems below are about the one thing a
+history adds: WHICH value of a shared object each instant of each design gets. -/
+
+/-- **C13.11a** every step of every history, as coded = as specified (any number type: the driver's
+`Float` run and the reals). -/
+theorem hist_model_eq_spec {α : Type} [TrigField α] [ZeroTest α] (srcs : List (Src α))
+    (dsgs : List (Dsg α)) (ops : List (HOp α)) :
+    histModel srcs dsgs ops = histSpec srcs dsgs ops :=
+  histModel_eq_histSpec srcs dsgs ops
+
+/-- **C13.11b** the heap after a history depends on it only through the pull count of each object,
+the value last assigned to each control and the instant count of each design; in particular what
+the caller's own objects yield afterwards is `callerSpec`: a shared iterator goes on exactly where
+the designs stopped, a list / tee'd object is untouched, a control yields its current value. -/
+theorem hist_caller_objects {α : Type} [TrigField α] [ZeroTest α] (srcs : List (Src α))
+    (dsgs : List (Dsg α)) (ops : List (HOp α)) :
+    (hrun srcs dsgs HSt.init ops).2 = stateOf dsgs ops.reverse ∧
+    ∀ i n, callerView srcs (hrun srcs dsgs HSt.init ops).2 i n = callerSpec srcs dsgs ops.reverse i n :=
+  ⟨hrun_final srcs dsgs ops, callerView_eq_callerSpec srcs dsgs ops⟩
+
+/-- **C13.11c** one more step: the earlier observations are unchanged and the new one is the
+specified function of the past — later steps never reach back. -/
+theorem hist_step_appended {α : Type} [TrigField α] [ZeroTest α] (srcs : List (Src α))
+    (dsgs : List (Dsg α)) (ops : List (HOp α)) (op : HOp α) :
+    histModel srcs dsgs (ops ++ [op]) = histModel srcs dsgs ops ++ [obsSpec srcs dsgs ops.reverse op] := by
+  rw [hist_model_eq_spec, hist_model_eq_spec]
+  unfold histSpec
+  rw [specFrom_append]
+  simp [specFrom]
+
+/-- **C13.11d** sample by sample: in every history, a `take j` step shows the coefficients of the
+CONSTANT design of design `j`'s kind for two values `v1`, `v2`, each of which is a value its
+argument can take (the number given, a value of the object given, or a value assigned to the
+control before this step). -/
+theorem hist_take_is_constant_design {α : Type} [TrigField α] [ZeroTest α] (srcs : List (Src α))
+    (dsgs : List (Dsg α)) (pre post : List (HOp α)) (j : ℕ)
+    (hne : ∀ i, (srcs.getD i emptySrc).vals ≠ []) :
+    ∃ e : Emit α, (histModel srcs dsgs (pre ++ HOp.take j :: post))[pre.length]? = some (some e) ∧
+      e.secs = designOf (dsgs.getD j emptyDsg).kind e.v1 e.v2 ∧
+      e.v1 ∈ parVals srcs pre.reverse (dsgs.getD j emptyDsg).p1 ∧
+      e.v2 ∈ parVals srcs pre.reverse (dsgs.getD j emptyDsg).p2 := by
+  rw [hist_model_eq_spec, histSpec_at]
+  exact ⟨_, rfl, rfl, parValue_mem _ _ _ _ _ _ (fun i _ => hne i), parValue_mem _ _ _ _ _ _ (fun i _ => hne i)⟩
+
+/-- every constant design meets the per-kind requirement `KindMeets` (`ALV/Lemmas/C13Contract.lean`)
+on the per-kind parameter range `ParOK`. -/
+theorem designOf_meets (k : Kind) (v1 v2 : ℝ) (h : ParOK k v1 v2) : KindMeets k v1 v2 (designOf k v1 v2) := by
+  cases k with
+  | lowpass st =>
+    intro s hs
+    rw [show s = lowpass st v1 by simpa [designOf] using hs]
+    exact lowpass_meets_contract st v1 h.1 h.2
+  | highpass st =>
+    intro s hs
+    rw [show s = highpass st v1 by simpa [designOf] using hs]
+    exact highpass_meets_contract st v1 h.1 h.2
+  | resonator st =>
+    intro s hs
+    rw [show s = resonator st v1 v2 by simpa [designOf] using hs]
+    exact resonator_meets_contract st v1 v2 h.1 h.2.1 h.2.2.1 h.2.2.2
+  | klapuri =>
+    intro s hs
+    exact (gammatone_meets_contract v1 v2 h.1 h.2.1 h.2.2).2.2 s (by simpa [designOf] using hs)
+  | combFb d => simp [KindMeets, designOf]
+  | combTau d => simp [KindMeets, designOf, comb_tau_alpha]
+  | combFf d => simp [KindMeets, designOf]
+
+/-- **C13.11e** the contracts hold at every instant of every history: if every value the arguments
+of design `j` can take up to this step lies in the property's range, the sections shown by a
+`take j` step meet the contract record of the values drawn — whatever other designs share the
+objects and however the steps are interleaved. -/
+theorem hist_take_meets_contract (srcs : List (Src ℝ)) (dsgs : List (Dsg ℝ)) (pre post : List (HOp ℝ))
+    (j : ℕ) (hne : ∀ i, (srcs.getD i emptySrc).vals ≠ [])
+    (hok : ∀ v1 ∈ parVals srcs pre.reverse (dsgs.getD j emptyDsg).p1,
+           ∀ v2 ∈ parVals srcs pre.reverse (dsgs.getD j emptyDsg).p2,
+             ParOK (dsgs.getD j emptyDsg).kind v1 v2) :
+    ∃ e : Emit ℝ, (histModel srcs dsgs (pre ++ HOp.take j :: post))[pre.length]? = some (some e) ∧
+      KindMeets (dsgs.getD j emptyDsg).kind e.v1 e.v2 e.secs := by
+  obtain ⟨e, he, hs, h1, h2⟩ := hist_take_is_constant_design srcs dsgs pre post j hne
+  exact ⟨e, he, by rw [hs]; exact designOf_meets _ _ _ (hok _ h1 _ h2)⟩
+
 /-! ### non-vacuity: the hypotheses are satisfiable on non-trivial inputs -/
 
 -- cut-off / centre frequency 1 ∈ (0, π), bandwidth 1/2 > 0
@@ -863,6 +952,16 @@ example : ([0, 0, 0] : List ℝ).length = (combFb (2 + 1) (1 / 2 : ℝ)).den.tai
 example : polyMagSq (lowpass .poleExp (1 : ℝ)).den 2 ≠ 0 :=
   (lowpass_highpass_response_defined .poleExp 1 one_pos (by linarith [Real.two_le_pi]) 2).1
 -- 7c: the non-vanishing hypothesis is theorem 7d for eta = 1
+
+-- 11e: a bank of two lowpass designs sharing ONE control (initial value 1, later set to 3/2): every
+-- value the shared argument can take is in (0, π)
+example : ∀ v1 ∈ parVals [(⟨.ctrl, [1]⟩ : Src ℝ)] [HOp.set 0 (3 / 2), HOp.take 0] (Par.src 0),
+    ∀ v2 ∈ parVals [(⟨.ctrl, [1]⟩ : Src ℝ)] [HOp.set 0 (3 / 2), HOp.take 0] (Par.const 0),
+      ParOK (.lowpass .pole) v1 v2 := by
+  intro v1 h1 v2 _
+  have h1' : v1 = 1 ∨ v1 = 3 / 2 := by simpa [parVals, setVal, emptySrc] using h1
+  have := Real.two_le_pi
+  rcases h1' with h | h <;> subst h <;> exact ⟨by norm_num, by linarith⟩
 
 end ALV.Props.C13
 
